@@ -64,14 +64,18 @@ PROPS["C19"] = {
             "(12 B .. 4 KiB literal) with other keys and spool leftovers in the directory; per scenario SIGKILL at the entry of every store "
             "syscall and after the last; RLIMIT_FSIZE stops inside the data write; Save sequences under injected faults (openat/each write/"
             "fsync/close/renameat error, also with failing cleanup unlink); Delete present/absent/failing; List on arbitrary names; large values "
-            "by reference (sha256 compare in Go); goroutine-owner histories from concurrent runs. Non-trivial = every case; distinct = distinct term.",
+            "by reference (sha256 compare in Go); goroutine-owner histories from concurrent runs. Non-trivial = every case; distinct = distinct term. "
+            "Agreement of a Save sequence: recorded calls = model's calls, result and directory, OR the recorded calls pass the scanner "
+            "'disciplined' (c19_tie_class_atomic), nil was returned exactly when the rename happened and the model directory after the recorded calls is the one found; "
+            "of a kill case: the fresh process' view = the model's calls cut at the stop, OR = the recorded (disciplined) calls of the same Save cut there.",
     "assumptions": ["syscall-level model; the kernel is observed through strace/ptrace, not modelled",
+                    "class-level agreement rebuilds the contents of recorded data writes from the record by offset (the descriptor writes sequentially); the directory found afterwards is compared, which checks it",
                     "process stop = no further syscall; power loss / durability of the rename is outside",
                     "store directories only (names %05x and %05x.spool); a foreign upper-case name such as 0ABCD is listed but not loadable (Example c19_foreign_name_listed_not_loadable)",
                     "same-key concurrent Saves share one spool name and are not claimed",
                     "values above ~6 KiB are compared in Go (sha256), not in Coq"],
     "trusted_extra": ["strace 6.1 -e inject (ptrace), RLIMIT_FSIZE semantics of the kernel"],
-    "level_text": "Coq theorems over ALL directories of store names, keys, values and ALL stop points (induction over syscall prefixes incl. cuts inside a data write): Save/Delete atomic per key, flush before visible, failed Save keeps old, List subset of loadable, frame and commuting interleavings for distinct keys; the syscall-level model is tied to the real FileSystem code by strace sequence comparison, SIGKILL sweeps at every syscall and RLIMIT_FSIZE cuts.",
+    "level_text": "Coq theorems over ALL directories of store names, keys, values and ALL stop points (induction over syscall prefixes incl. cuts inside a data write): Save/Delete atomic per key, flush before visible, failed Save keeps old, List subset of loadable, frame and commuting interleavings for distinct keys; the same atomicity for EVERY system-call trace the executable scanner 'disciplined' accepts (any split of the record into writes, anything on other names), of which the executable model of Save is a member; the syscall-level model is tied to the real FileSystem code by strace sequence comparison (equal to the model's calls, or else inside the proved class and explaining the directory found), SIGKILL sweeps at every syscall and RLIMIT_FSIZE cuts.",
     "level_note": "Trusted: Coq kernel; the syscall vocabulary and os/* behaviour as observed with strace on this kernel; ptrace injection. Durability against power loss is not part of the property.",
     "technique": "Coq proof by induction over syscall prefixes + strace-level model/implementation correspondence",
     "harness_timeout": 3000,
